@@ -107,6 +107,7 @@ type Ctx struct {
 
 // NewCtx creates the context; messages go to stdout.
 func NewCtx(prop, tier string, seed uint64, shard, nshards, start int, journal, tmp string) *Ctx {
+	IOTmpDir = tmp
 	return &Ctx{
 		Prop: prop, Tier: tier, Seed: seed, Shard: shard, NShards: nshards, Start: start,
 		journalPath: journal, TmpDir: tmp,
@@ -137,6 +138,7 @@ func (c *Ctx) Mine(idx int) bool {
 
 // Journal records the case about to run (overwrites the journal file) before gtree is called.
 func (c *Ctx) Journal(cs *Case) {
+	SetIOSeq(cs.Idx)
 	c.curIdx = cs.Idx
 	c.stats.Cases++
 	c.stats.NextIdx = cs.Idx + 1
@@ -261,6 +263,9 @@ func (c *Ctx) snapshotStats() *Stats {
 	s.Counters = map[string]int64{}
 	for k, v := range c.stats.Counters {
 		s.Counters[k] = v
+	}
+	for k, v := range IOShapeCounts() {
+		s.Counters["io_kind."+k] = v
 	}
 	s.Sets = map[string][]string{}
 	for k, set := range c.sets {
